@@ -440,6 +440,11 @@ def run_exiting(req):
             box["st"] = extract_since(box["frame"])
         box["w"] = w
 
+    if (req.get("by_exception") and sys.version_info < (3, 10) and not target["async"]
+            and any(n["t"] == "gcm" and n.get("delegate") for n in path[:-1])):
+        # CPython 3.9's gen.throw() into a generator suspended in `yield from` leaves the delegating frame with
+        # f_back = None (fixed in 3.10), so the running chain cannot be walked by anyone from inside __exit__
+        return {"obs": [], "stats": {"skipped_cpython39_throw_breaks_f_back": 1}}
     b = Builder(exiting_nid=nid, probe=probe)
     rr = b.make(root)
 
@@ -454,13 +459,22 @@ def run_exiting(req):
                 b._fill(rr)
                 await trap("body")
 
+    class BodyFailed(Exception):
+        pass
+
     co = holder()
     try:
         co.send(None)
         v = None
         try:
-            v = co.send(None)   # leave the body: managers exit innermost first
-        except StopIteration:
+            if req.get("by_exception"):
+                # the body raises: the managers exit on the exception path (generator-based ones are driven by
+                # throw() / athrow() instead of next() / asend())
+                stats["by_exception"] = 1
+                v = co.throw(BodyFailed("body"))
+            else:
+                v = co.send(None)   # leave the body: managers exit innermost first
+        except (StopIteration, BodyFailed):
             pass
     except BaseException as ex:
         return {"harness_error": "holder failed: %r" % (ex,)}
